@@ -180,6 +180,8 @@ type Path struct {
 	dead       bool
 	endSignal  interface{}
 	chanSeq    int
+	eventSeq   int
+	preempt    int
 	unknown    bool
 	clock      *smt.T
 	newDec     int
